@@ -51,9 +51,14 @@ def label_rows(table: str, offset: int = 0, table_r: str | None = None, offset_r
              "clerical_match_score": c} for a, b, c in pairs]
 
 
+LOOKUP_ONLY = {"first_name": "zed", "surname": "qq"}     # values that occur in the lookups but never in the input data
+
+
 def lookup_rows(col: str, ver: int) -> list[dict]:
-    vals = sorted(set(FN if col == "first_name" else SN))
-    return [{col: v, f"tf_{col}": (1 + (sum(map(ord, v)) * (ver + 3) + 5 * ver) % 13) / 32.0} for v in vals]
+    """Lookup table: every value of the data (with frequencies that differ from the data's: denominator 37) plus one
+    value that does not occur in the data."""
+    vals = sorted(set(FN if col == "first_name" else SN)) + [LOOKUP_ONLY[col]]
+    return [{col: v, f"tf_{col}": (1 + (sum(map(ord, v)) * (ver + 3) + 5 * ver) % 13) / 37.0} for v in vals]
 
 
 def settings_creator(link_type="dedupe_only"):
@@ -121,6 +126,9 @@ class World:
         su.quiet()
         self.cache = self.linker._intermediate_table_cache
         self.registered: dict[str, int] = {}
+        self.last_routes = None
+        self.tf_problem = None
+        self.last_output = None
         self.param_ids: dict[str, int] = {}
         self.params = self.param_id()
         self.tfcols = [c.unquote().name for c in self.linker._settings_obj._term_frequency_columns]
@@ -196,6 +204,10 @@ class World:
             elif kind == "ctf":
                 lk.table_management.compute_tf_table(op[1])
                 term = f"(ComputeTF {coq_string(op[1])})"
+            elif kind == "rtf_ow":
+                term = f"(RegisterTFOverwrite {coq_string(op[1])} {coq_nat(op[2])})"
+                lk.table_management.register_term_frequency_lookup(pd.DataFrame(lookup_rows(op[1], op[2])), op[1], overwrite=True)
+                self.registered[op[1]] = op[2]
             elif kind == "rtf":
                 term = f"(RegisterTF {coq_string(op[1])} {coq_nat(op[2])})"
                 df = pd.DataFrame(lookup_rows(op[1], op[2]))
@@ -206,15 +218,42 @@ class World:
                     if "already exists" not in str(e):
                         raise
             elif kind == "fm":
-                rec = {"unique_id": 900 + self.offset, "first_name": "ann", "surname": "x", "city": "l", "grp": 0}
+                # new records carrying a value that only the lookups know, and one that the data knows too
+                recs = [{"unique_id": 900 + self.offset, "first_name": LOOKUP_ONLY["first_name"], "surname": "x", "city": "l", "grp": 0},
+                        {"unique_id": 901 + self.offset, "first_name": "ann", "surname": LOOKUP_ONLY["surname"], "city": "l", "grp": 0}]
                 if self.link:
-                    rec["source_dataset"] = "new"
-                lk.inference.find_matches_to_new_records([rec], blocking_rules=[])
+                    for r in recs:
+                        r["source_dataset"] = "new"
+                self.last_output = lk.inference.find_matches_to_new_records(recs, blocking_rules=[], match_weight_threshold=-1e9)
+                # find_matches computes concat_with_tf itself before it chooses the routes: they are those of the state AFTER
+                exp = {(r["unique_id"], c): self.expected_tf(c, r[c]) for r in recs for c in self.tfcols}
+                self.last_routes = [self.route_kind(c) for c in self.tfcols]
+                self.tf_problem = self.check_tf(su.records(self.last_output), exp)
                 term = "FindMatches"
+            elif kind == "fm_tab":
+                # new records handed over by TABLE NAME; the caller replaces the table's rows between searches
+                ver = op[1]
+                recs = pd.DataFrame([{"unique_id": 950 + self.offset + k, "first_name": FN[(ver + k) % len(FN)],
+                                      "surname": SN[(2 * ver + k) % len(SN)], "city": "l", "grp": 0} for k in range(2)])
+                if self.link:
+                    recs["source_dataset"] = "new"
+                if self.backend == "duckdb":
+                    self.con.register("__c07_new", recs)
+                    self.con.execute("create or replace table c07_new_records as select * from __c07_new")
+                    self.con.unregister("__c07_new")
+                else:
+                    self.con.execute("drop table if exists c07_new_records")
+                    recs.to_sql("c07_new_records", self.con, index=False)
+                self.last_output = lk.inference.find_matches_to_new_records("c07_new_records", blocking_rules=[],
+                                                                           match_weight_threshold=-1e9)
+                term = f'(FindMatchesTable "c07_new_records" {coq_nat(ver)})'
             elif kind == "c2":
-                r1 = {"unique_id": 901, "first_name": "ann", "surname": "x", "city": "l"}
-                r2 = {"unique_id": 902, "first_name": "ann", "surname": "y", "city": "l"}
-                lk.inference.compare_two_records(r1, r2, include_found_by_blocking_rules=bool(op[1]))
+                r1 = {"unique_id": 901, "first_name": LOOKUP_ONLY["first_name"], "surname": LOOKUP_ONLY["surname"], "city": "l"}
+                r2 = {"unique_id": 902, "first_name": "ann", "surname": "x", "city": "l"}
+                exp = {(r["unique_id"], c): self.expected_tf(c, r[c]) for r in (r1, r2) for c in self.tfcols}
+                self.last_routes = [self.route_kind(c) for c in self.tfcols]
+                self.last_output = lk.inference.compare_two_records(r1, r2, include_found_by_blocking_rules=bool(op[1]))
+                self.tf_problem = self.check_tf(su.records(self.last_output), exp)
                 term = f"(CompareTwo {coq_bool(op[1])})"
             elif kind == "cluster":
                 thr = [0.5, 0.9][op[1]]
@@ -253,6 +292,38 @@ class World:
             raised = f"{type(e).__name__}: {e}"[:600]
             term = None
         return term, raised
+
+    # ---- the ad-hoc term-frequency route of compare_two_records / find_matches_to_new_records, recomputed from the
+    #      real tables: cached tf table first, else select distinct from the cached concat_with_tf, else NULL
+    def route_kind(self, col: str) -> int:
+        if f"__splink__df_tf_{col}" in self.cache.data:
+            return 1
+        return 2 if "__splink__df_concat_with_tf" in self.cache.data else 3
+
+    def expected_tf(self, col: str, value):
+        kind = self.route_kind(col)
+        if kind == 3:
+            return None
+        key = f"__splink__df_tf_{col}" if kind == 1 else "__splink__df_concat_with_tf"
+        phys = self.cache.data[key].physical_name
+        cur = self.con.execute(f"select distinct tf_{col} from {phys} where {col} = '{value}'")
+        rows = cur.fetchall()
+        rows = [tuple(r.values()) if isinstance(r, dict) else tuple(r) for r in rows]
+        return rows[0][0] if rows else None
+
+    @staticmethod
+    def check_tf(rows: list[dict], expected: dict):
+        """tf_<col>_l / tf_<col>_r of every output row against the value the route prescribes."""
+        for r in rows:
+            for side in ("l", "r"):
+                uid = r.get(f"unique_id_{side}")
+                for (eid, col), val in expected.items():
+                    if eid != uid or f"tf_{col}_{side}" not in r:
+                        continue
+                    got = r[f"tf_{col}_{side}"]
+                    if (got is None) != (val is None) or (got is not None and abs(got - val) > 1e-12):
+                        return {"record": uid, "column": f"tf_{col}_{side}", "implementation": got, "route_value": val}
+        return None
 
     def labels(self):
         if self.link:
@@ -337,6 +408,14 @@ class World:
         kind = op[0]
         if kind == "predict":
             return su.records(self.linker.inference.predict())
+        if kind in ("c2", "fm", "fm_tab"):
+            term, raised = self.apply(op)
+            if raised:
+                raise RuntimeError(raised)
+            rows = su.records(self.last_output)
+            for r in rows:          # ids of the registered record tables differ between linkers
+                r.pop("match_key", None)
+            return rows
         if kind == "detlink":
             return su.records(self.linker.inference.deterministic_link())
         if kind == "cluster":
@@ -369,7 +448,7 @@ class World:
 NEW_OPS = {"acc_col", "err_col", "acc_tab", "err_tab", "m_col", "m_pair", "unlink", "profile", "complete", "ba_count",
            "ba_cum", "ba_nl", "multi", "metrics"}
 TABLE_OPS = [("predict",), ("detlink",), ("cluster", 0), ("acc_col",), ("err_col",), ("acc_tab",), ("err_tab",),
-             ("ba_nl", 0), ("multi",), ("sbl", 0)]
+             ("ba_nl", 0), ("multi",), ("sbl", 0), ("c2", False), ("fm",), ("c2", True), ("fm",)]
 
 
 def table_diff(a: list[dict], b: list[dict], tol=1e-9):
@@ -431,6 +510,7 @@ def rows_diff(a: list[dict], b: list[dict], tol=1e-9):
 # ---------------------------------------------------------------------------------- Coq rendering
 HEADER = """From Coq Require Import List Bool Arith String.
 From Splinkv Require Import Model.Cache.
+From Splinkv Require Model.EntryPoints.
 Import ListNotations.
 Open Scope string_scope.
 Open Scope list_scope.
@@ -482,6 +562,16 @@ Fixpoint prov_eqb (a b : prov) : bool :=
   | _, _ => false
   end.
 Definition predict_prov (s : state K) : prov := result_prov K keqb hash s Predict.
+(* the tf route of compare_two_records / find_matches in the model state reached after the first k operations:
+   1 = cached tf table, 2 = select distinct from the cached concat_with_tf, 3 = NULL (EntryPoints.route_priority) *)
+Definition route_code (s : state K) (c : string) : nat :=
+  match Splinkv.Model.EntryPoints.route_priority false (amem K keqb (st_cache K s) (named K (tfname c)))
+                                                 (amem K keqb (st_cache K s) (named K CWTF)) with
+  | Splinkv.Model.EntryPoints.RRegistered => 1 | Splinkv.Model.EntryPoints.RDistinct => 2 | _ => 3 end.
+Definition routes_ok (c : state K * list op * list (nat * list nat)) : bool :=
+  match c with (s0, ops, obsv) =>
+    forallb (fun kr => let s := run K keqb hash s0 (firstn (fst kr) ops) in
+                       lst_eqb Nat.eqb (map (route_code s) (st_tfcols K s)) (snd kr)) obsv end.
 (* case: initial state, steps with observations, expected guard value, real oracle "equal to fresh" *)
 Definition run_case (c : state K * list (op * obs) * bool * bool) : bool :=
   match c with (s0, steps, guard, equal_fresh) =>
@@ -509,7 +599,7 @@ def coq_init(table, version: int, tfcols: list[str], params: int, fixes: dict) -
 
 def _coq_init(tables: list[str], version: int, tfcols: list[str], params: int, fixes: dict) -> str:
     fx = (f"{{| fx77 := {coq_bool(fixes['fx77'])}; fx716 := {coq_bool(fixes['fx716'])}; "
-          f"fx715 := {coq_bool(fixes.get('fx715', False))} |}}")
+          f"fx715 := {coq_bool(fixes.get('fx715', False))}; fx718 := {coq_bool(fixes.get('fx718', False))} |}}")
     return (f"(init_state K {coq_list(['LPlain ' + coq_string(t) for t in tables])} {coq_nat(version)} "
             f"{coq_list([coq_string(c) for c in tfcols], 'string')} {coq_nat(params)} 5 6 {fx})")
 
